@@ -25,6 +25,9 @@ int dispenso_verif_futex(
     int* result) __attribute__((weak));
 // Event notification for components modelled at event granularity (thread pool).
 void dispenso_verif_event(const char* event, const void* obj, long a, long b) __attribute__((weak));
+// Thread enrolment for components that own threads (thread pool): called by a pool worker at the
+// top of its loop (begin = 1) and when it leaves the loop (begin = 0).
+void dispenso_verif_thread(int begin, const void* pool, int ringIndex) __attribute__((weak));
 }
 
 #define DISPENSO_VERIF_POINT(site, addr)          \
@@ -41,9 +44,17 @@ void dispenso_verif_event(const char* event, const void* obj, long a, long b) __
     }                                                                           \
   } while (0)
 
+#define DISPENSO_VERIF_THREAD(begin, pool, idx)                                 \
+  do {                                                                          \
+    if (dispenso_verif_thread) {                                                \
+      dispenso_verif_thread((begin), (pool), (int)(idx));                       \
+    }                                                                           \
+  } while (0)
+
 #else
 
 #define DISPENSO_VERIF_POINT(site, addr) ((void)0)
 #define DISPENSO_VERIF_EVENT(event, obj, a, b) ((void)0)
+#define DISPENSO_VERIF_THREAD(begin, pool, idx) ((void)0)
 
 #endif // DISPENSO_VERIF
